@@ -134,3 +134,28 @@ fn play_stereo() {
 fn play_empty() {
     scenario(kani::any(), 0);
 }
+
+/// C15, VTX header + strings block: any byte string of <= 48 bytes (truncated headers, missing
+/// string terminators, zero player frequency, huge size fields) gives Ok or Err - no panic, no
+/// endless loop. BOUNDED: 48 bytes; the LH5 payload is excluded (declared frame size 0 or the
+/// loader fails before decoding): delharc internals are out of reach.
+#[kani::proof]
+#[kani::unwind(50)]
+fn vtx_load_header() {
+    let data: [u8; 48] = kani::any();
+    let len: usize = kani::any();
+    kani::assume(len <= 48);
+    // either the declared decompressed size is 0 (nothing to decode) ...
+    let size = (data[12] as u32) | ((data[13] as u32) << 8) | ((data[14] as u32) << 16) | ((data[15] as u32) << 24);
+    kani::assume(size == 0 || size > 64 * 1024 * 1024 || size % 14 != 0);
+    let r = Vtx::load(std::io::Cursor::new(&data[..len]));
+    if let Ok(v) = &r {
+        kani::assert(v.player_frequency != 0, "C15/C20: a loaded track never has player frequency 0");
+        kani::assert(v.frame_data.len() == 0, "C15: no frame data was declared");
+    }
+    if len < 16 {
+        kani::assert(r.is_err(), "C15: truncated VTX header is an error");
+    }
+    kani::cover!(r.is_ok());
+    kani::cover!(r.is_err());
+}
